@@ -12,9 +12,11 @@
 (*     flg, bd, csize, blocks (stored size / raw flag per block), hascc    *)
 (*                                                                         *)
 (* strict = TRUE is what a conforming reader of the frame document         *)
-(* enforces (version 01, reserved bits zero, no dictionary id, content     *)
-(* size equal to the actual size): used to judge EMITTED frames (C09, C18, *)
-(* C20).  strict = FALSE keeps exactly the header rule of C19 (checksum    *)
+(* enforces (version 01, reserved bits zero, no dictionary id): used to    *)
+(* judge EMITTED frames (C09, C18, C20).  The content-size field is        *)
+(* returned, not compared with the actual size: C09 asks for "the          *)
+(* configured content size", which the caller chooses (SizeMatches below   *)
+(* is available for callers that configure the true size).  strict = FALSE keeps exactly the header rule of C19 (checksum    *)
 (* byte and block-size code, nothing else) and everything else of the      *)
 (* format: used to judge what the Reader ACCEPTS (C05, C06, C07), so the   *)
 (* check never demands more of the Reader than the properties do.          *)
@@ -22,7 +24,6 @@
 (* Rejection reasons:                                                      *)
 (*   "bad_magic" "truncated" "bad_hc" "bad_bd" "bad_version" "reserved"    *)
 (*   "dictid" "block_too_big" "bad_block_cs" "bad_block" "bad_cc"          *)
-(*   "size_mismatch"                                                       *)
 (***************************************************************************)
 EXTENDS LZ4Block, XXH32
 
@@ -75,11 +76,7 @@ FrameBlocks(s, i, hdr, content, blocks, strict) ==
          IF FlgContentCS(hdr.flg)
          THEN IF ~Has(s, i + 4, 4) THEN R("truncated", content, Len(s), hdr, blocks)
               ELSE IF WordAt32(s, i + 4) # XXH32(content) THEN R("bad_cc", content, i + 7, hdr, blocks)
-              ELSE IF strict /\ FlgSize(hdr.flg) /\ hdr.csize # Nat64(Len(content))
-                   THEN R("size_mismatch", content, i + 7, hdr, blocks)
               ELSE R("ok", content, i + 7, hdr, blocks)
-         ELSE IF strict /\ FlgSize(hdr.flg) /\ hdr.csize # Nat64(Len(content))
-              THEN R("size_mismatch", content, i + 3, hdr, blocks)
          ELSE R("ok", content, i + 3, hdr, blocks)
     ELSE
     LET size == Low31(s, i)
@@ -158,6 +155,7 @@ ParseFrom(s, i, strict) ==
             ELSE FrameBlocks(s, at + 1, hdr, <<>>, <<>>, strict)
 
 Parse(s, strict) == ParseFrom(s, 1, strict)
+SizeMatches(p) == p.csize = <<>> \/ p.csize = Nat64(Len(p.content))
 ParseStrict(s)  == Parse(s, TRUE)
 ParseLenient(s) == Parse(s, FALSE)
 
